@@ -30,7 +30,8 @@ CONFIG = {
                    'in both forms and read back, and/or/not synonyms and the '
                    'documented error classes are checked.'
                    ' Also: flat n-ary and/or chains, non-Boolean constructs'
-                   ' nested inside valid operators.'),
+                   ' nested inside valid operators.'
+                   ' Also (round 6): missing variables / non-Boolean operands placed beside operands that already settle an and/or chain.'),
     'level_note': ('Trusted base: vmon/refbool.py (Python evaluation of the '
                    'expression on all assignments; diagram walker).'),
     'deciding': ['c18.lambda', 'c18.print_root', 'c18.print_obdd',
